@@ -31,20 +31,24 @@ func defaultPrefixes() map[string]string {
 type c12pkg struct {
 	name string
 	src  string
+	// suffixed: every derive call carries a suffix after the prefix, so that a
+	// prefix spelled like a Go keyword still yields identifiers
+	suffixed bool
 }
 
 func c12Corpus() []c12pkg {
 	types := "type S struct {\n\tA int\n\tB []string\n\tM map[string]*S\n\tP *int\n\tF float64\n}\n\ntype K struct{ X, Y int }\n\n"
 	return []c12pkg{
-		{"equal-compare", types + "func use(a, b *S) (bool, int) {\n\treturn deriveEqual(a, b), deriveCompare(a, b)\n}\n"},
-		{"hash-unique-mem", types + "func use(l []*S, f func(*S) int) ([]*S, uint64, func(*S) int) {\n\treturn deriveUnique(l), deriveHash(l), deriveMem(f)\n}\n"},
-		{"sort-keys-set-min-max", types + "func use(m map[string]int, l []int) ([]string, map[int]struct{}, int, int) {\n\treturn deriveSort(deriveKeys(m)), deriveSet(l), deriveMin(l, 0), deriveMax(l, 0)\n}\n"},
-		{"clone-deepcopy-gostring", types + "func use(a, b *S) (*S, string) {\n\tderiveDeepCopy(a, b)\n\treturn deriveClone(a), deriveGoString(a)\n}\n"},
-		{"union-intersect-contains", types + "func use(a, b []K, c, d []*S) ([]K, []K, bool, []*S) {\n\treturn deriveUnion(a, b), deriveIntersect(a, b), deriveContains(c, d[0]), deriveUnionS(c, d)\n}\n"},
-		{"fmap-join-filter-all-any-takewhile", types + "func use(f func(int) []int, p func(int) bool, l []int) ([]int, []int, bool, bool, []int) {\n\treturn deriveJoin(deriveFmap(f, l)), deriveFilter(p, l), deriveAll(p, l), deriveAny(p, l), deriveTakeWhile(p, l)\n}\n"},
-		{"curry-uncurry-flip-apply-tuple", types + "func use(f func(a int, b string, c bool) string) string {\n\tg := deriveUncurry(deriveCurry(f))\n\th := deriveFlip(f)\n\tk := deriveApply(f, true)\n\tt := deriveTuple(1, \"x\")\n\ti, s := t()\n\treturn g(i, s, true) + h(s, i, false) + k(i, s)\n}\n"},
-		{"compose-traverse-toerror", types + "func use(f func(int) (string, error), g func(string) (float64, error), p func(s string) (int, bool), e error, l []int) {\n\t_ = deriveCompose(f, g)\n\t_, _ = deriveTraverse(f, l)\n\t_ = deriveToError(e, p)\n}\n"},
-		{"set-sort-same-argument", types + "func use(l []string) (map[string]struct{}, []string) {\n\treturn deriveSet(l), deriveSort(l)\n}\n"},
+		{"equal-compare", types + "func use(a, b *S) (bool, int) {\n\treturn deriveEqual(a, b), deriveCompare(a, b)\n}\n", false},
+		{"hash-unique-mem", types + "func use(l []*S, f func(*S) int) ([]*S, uint64, func(*S) int) {\n\treturn deriveUnique(l), deriveHash(l), deriveMem(f)\n}\n", false},
+		{"sort-keys-set-min-max", types + "func use(m map[string]int, l []int) ([]string, map[int]struct{}, int, int) {\n\treturn deriveSort(deriveKeys(m)), deriveSet(l), deriveMin(l, 0), deriveMax(l, 0)\n}\n", false},
+		{"clone-deepcopy-gostring", types + "func use(a, b *S) (*S, string) {\n\tderiveDeepCopy(a, b)\n\treturn deriveClone(a), deriveGoString(a)\n}\n", false},
+		{"union-intersect-contains", types + "func use(a, b []K, c, d []*S) ([]K, []K, bool, []*S) {\n\treturn deriveUnion(a, b), deriveIntersect(a, b), deriveContains(c, d[0]), deriveUnionS(c, d)\n}\n", false},
+		{"fmap-join-filter-all-any-takewhile", types + "func use(f func(int) []int, p func(int) bool, l []int) ([]int, []int, bool, bool, []int) {\n\treturn deriveJoin(deriveFmap(f, l)), deriveFilter(p, l), deriveAll(p, l), deriveAny(p, l), deriveTakeWhile(p, l)\n}\n", false},
+		{"curry-uncurry-flip-apply-tuple", types + "func use(f func(a int, b string, c bool) string) string {\n\tg := deriveUncurry(deriveCurry(f))\n\th := deriveFlip(f)\n\tk := deriveApply(f, true)\n\tt := deriveTuple(1, \"x\")\n\ti, s := t()\n\treturn g(i, s, true) + h(s, i, false) + k(i, s)\n}\n", false},
+		{"compose-traverse-toerror", types + "func use(f func(int) (string, error), g func(string) (float64, error), p func(s string) (int, bool), e error, l []int) {\n\t_ = deriveCompose(f, g)\n\t_, _ = deriveTraverse(f, l)\n\t_ = deriveToError(e, p)\n}\n", false},
+		{"set-sort-same-argument", types + "func use(l []string) (map[string]struct{}, []string) {\n\treturn deriveSet(l), deriveSort(l)\n}\n", false},
+		{"suffixed-names", types + "func use(f func(int) int, l []int, m map[string]int, a, b *S) ([]int, []string, bool, int) {\n\treturn deriveFmapInc(f, l), deriveSortStr(deriveKeysOf(m)), deriveEqualS(a, b), deriveCompareS(a, b)\n}\n", true},
 	}
 }
 
@@ -53,6 +57,8 @@ type c12map struct {
 	global   string            // -prefix value ("" = default)
 	override map[string]string // plugin -> prefix
 	nested   bool
+	// keywordLike: some prefix is spelled like a Go keyword; only for packages whose calls all carry a suffix
+	keywordLike bool
 }
 
 func (m c12map) flags() []string {
@@ -107,6 +113,9 @@ func c12Maps() []c12map {
 		{name: "hash=deriveMem,mem=deriveRemember,unique=deriveHash", override: map[string]string{"hash": "deriveMem", "mem": "deriveRemember", "unique": "deriveHash"}},
 		{name: "sort=deriveSet,set=deriveBag,keys=deriveSort", override: map[string]string{"sort": "deriveSet", "set": "deriveBag", "keys": "deriveSort"}},
 		{name: "equal=eq,compare=cmp,deepcopy=dc (short prefixes sharing no letter with the longest default)", override: map[string]string{"equal": "eq", "compare": "cmp", "deepcopy": "dc"}},
+		{name: "fmap=map,keys=range (keyword-like)", override: map[string]string{"fmap": "map", "keys": "range"}, keywordLike: true},
+		{name: "global func (keyword-like)", global: "func", keywordLike: true},
+		{name: "equal=go,compare=type,sort=for (keyword-like)", override: map[string]string{"equal": "go", "compare": "type", "sort": "for"}, keywordLike: true},
 		{name: "nested equal=eq,compare=eqCmp", override: map[string]string{"equal": "eq", "compare": "eqCmp"}, nested: true},
 		{name: "nested equal=cmpEq,compare=cmp", override: map[string]string{"equal": "cmpEq", "compare": "cmp"}, nested: true},
 		{name: "nested set=deriveS,sort=deriveSo", override: map[string]string{"set": "deriveS", "sort": "deriveSo"}, nested: true},
@@ -241,6 +250,9 @@ func checkC12(tier string) {
 	var items []item
 	for pi := range corpus {
 		for mi := range maps {
+			if maps[mi].keywordLike && !corpus[pi].suffixed {
+				continue
+			}
 			items = append(items, item{pi, mi})
 		}
 	}
